@@ -1245,10 +1245,10 @@ unsigned int CppCheck::checkInternal(const FileWithDetails& file, const std::str
                     fdump << "</dump>" << std::endl;
                 }
 
-                if (mSettings.inlineSuppressions) {
-                    // Need to call this even if the hash will skip this configuration
-                    mSuppressions.nomsg.markUnmatchedInlineSuppressionsAsChecked(tokenizer.list);
-                }
+                // Need to call this even if the hash will skip this configuration.
+                // Not only for inline suppressions: a command line suppression with a line number is also only
+                // reported as unmatched if its line was seen in the analyzed code.
+                mSuppressions.nomsg.markUnmatchedInlineSuppressionsAsChecked(tokenizer.list);
 
                 // Skip if we already met the same simplified token list
                 if (maxConfigs > 1) {
